@@ -7,4 +7,5 @@ def main : IO UInt32 :=
     match family with
     | "c13" => C13.check params lines
     | "c13e" => C13.checkEngine params lines
+    | "c13e2" => C13.checkEngine2 params lines
     | _ => { bad := [s!"unknown family {family}"] })
